@@ -211,7 +211,7 @@ def check(item, tier):
 
             def wrapped(pomdp_, belief_set, value_convergence_epsilon, horizon=None):
                 out = orig(pomdp_, belief_set, value_convergence_epsilon=value_convergence_epsilon, horizon=horizon)
-                calls.append((out['iterations'], np.array(belief_set)))
+                calls.append((out['iterations'], np.array(belief_set), np.array(out['alpha_vectors'])))
                 return out
             pb.point_based_value_iteration = wrapped
             try:
@@ -229,13 +229,27 @@ def check(item, tier):
                 continue
             finally:
                 pb.point_based_value_iteration = orig
-            iters, used = calls[-1]
+            iters, used, alphas = calls[-1]
             if horizon is None:
                 h = float(eps) / (float(sar.max()) - float(sar.min()))
                 hmax = int(math.ceil(math.log(h) / math.log(float(g))))
             else:
                 hmax = horizon
             js = sorted({min(iters, hmax), min(iters + 1, hmax)})
+            # convergence threshold: a run that stopped before its horizon claims that one more backup changes the value of
+            # no belief point of the set it used by epsilon or more -- replay exactly one more backup (no early stop) and compare
+            if iters < hmax - 1:
+                try:
+                    more = orig(pomdp, used, value_convergence_epsilon=float('-inf'), horizon=iters + 1)['alpha_vectors']
+                    old_v = np.einsum('bs,bs->b', alphas, used)
+                    new_v = np.einsum('bs,bs->b', np.array(more), used)
+                    r.count('transitions')
+                    r.count('stop_rule_checks')
+                    if np.abs(new_v - old_v).max() >= eps + 1e-12:
+                        bad('pbvi_stopped_before_reaching_its_convergence_threshold',
+                            dict(ctx, backups=iters, change_of_next_backup=float(np.abs(new_v - old_v).max())))
+                except Exception as e:
+                    bad('pbvi_exception', dict(ctx, error=repr(e)[:300]))
             if len(used) >= 2 and any(len({ps.sa_reward(s, a) for a in ps.anames}) > 1 for s in range(n) if s not in A):
                 r.nontriv((pitem, hi, ei, mi))
             for k, b in beliefs.items():
